@@ -37,7 +37,7 @@ checks = [
   "Process death only (no power loss; garble never fsyncs); a kill inside an uninstrumented writer is emulated as kill at the surrounding exec event plus truncation of its declared output.",
   TECH + ": crash points enumerated over the recorded event sequence, rerun compared with an uninterrupted reference"),
  chk("C19", "fault_enumeration", "DESIGN.md §4 C19, §10",
-  "Commands {build, run, reverse, map} run to completion with outcomes produced by input (type error in a dependency, syntax error, missing body, missing import, bad flags, garble flag after the command, GOGARBLE matching nothing) and by injection (ENOSPC/EACCES/EIO at each gated call in turn, tool exit != 0 at each exec) and with every kind of pre-existing -debugdir target, plus the history `-debugdir build; edit; build; -debugdir build`; afterwards the source tree is byte-identical, TMPDIR holds nothing garble created (unless the injected fault was the failure of that very removal), a foreign target is untouched and the command failed, an owned one holds the same trees as a cold build, and no mutating call in the event log touched a path outside {output, TMPDIR, caches, debugdir}.",
+  "Commands {build, run, reverse, map} run to completion with outcomes produced by input (type error in a dependency, syntax error, missing body, missing import, bad flags, garble flag after the command, GOGARBLE matching nothing) and by injection (ENOSPC/EACCES/EIO at each gated call in turn, tool exit != 0 at each exec) and with every kind of pre-existing -debugdir target, plus the history `-debugdir build; edit; build; -debugdir build` and a build whose restore-from-cache step is starved of every cache entry (the debug dir written by the build alone must already be right); afterwards the source tree is byte-identical, TMPDIR holds nothing garble created (unless the injected fault was the failure of that very removal), a foreign target is untouched and the command failed, an owned one holds the same trees as a cold build, and no mutating call in the event log touched a path outside {output, TMPDIR, caches, debugdir}.",
   "No kills (the property is about commands that return); `garble test` is not exercised (it would need a second std template); accepted -debugdir targets mean full -a rebuilds, of which the quick tier runs one under the gate and the rest outside it (end-state invariants only).",
   TECH + ": I/O errors and tool failures injected at every gated call of recorded runs, end-state and event-log invariants"),
 ]
